@@ -38,6 +38,7 @@ def decOp (j : Json) : Except String (Nat × Op) := do
     | "attach" => pure (Op.attach (← decStr (← field j "file")) (← decStr (← field j "desc")) (← decBool (← field j "img")))
     | "attachBegin" => pure (Op.attachBegin (← decStr (← field j "file")) (← decStr (← field j "desc")) (← decBool (← field j "img")))
     | "attachEnd" => pure Op.attachEnd
+    | "attachAbort" => pure Op.attachAbort
     | "threadCreate" => pure (Op.threadCreate (← decNat (← field j "new")))
     | "threadRun" => pure Op.threadRun
     | "threadEnd" => pure Op.threadEnd
